@@ -38,6 +38,12 @@ def run_config(unit):
         def annotations(self):
             return {"RESP": b"r"} if ann else {}
 
+    # the process's time zone is an environment dimension of its own (naive datetimes travel as timestamps under msgpack): half of the
+    # configurations run three and a half hours east of UTC, the other half in UTC
+    import os
+    import time as _time
+    os.environ["TZ"] = "XYZ-3:30" if ann else "UTC0"
+    _time.tzset()
     gc.disable()
     w = SyncWorld(SERIALIZER=sername, COMPRESSION=comp, SERPENT_BYTES_REPR=bytes_repr)
     container_types = {}     # kind of container sent -> set of type names it arrives as (must be one per serializer: a *fixed* mapping)
@@ -158,6 +164,31 @@ def run_config(unit):
                         V("mapping-depends-on-what-was-sent-before|Decimal|%s" % how, "Decimal(%r) arrives as %s when sent after its equal-valued variants but Decimal(%r) as %s when sent before them"
                           % (f % n, show(a), f % m, show(b)), "Decimal-forms")
                 n, m = next(_FRESH), next(_FRESH)
+        # --- the serializer of a proxy may be changed while it is connected: the next call follows the newly selected serializer's
+        #     mapping (what a fresh proxy using that serializer delivers), in both directions
+        if si == 0:
+            probes = [("tuple", (1, 2)), ("bytes", b"ab\x00"), ("set", {3}), ("text", "x")]
+            for other in sorted(serializers.serializers):
+                if other == sername:
+                    continue
+                fresh = client.Proxy(uri)
+                fresh._pyroSerializer = other
+                proxy._pyroSerializer = other           # the long-lived proxy, still connected from the calls above
+                try:
+                    for plabel, pv in probes:
+                        outs = []
+                        for px in (fresh, proxy):
+                            del echo.seen[:]
+                            r = attempt(lambda: px.echo(pv))
+                            outs.append((("ok", echo.seen[0][0][0]) if (r[0] == "ok" and echo.seen) else ("exc", "failed"), r))
+                        st.points += 2
+                        (f_arg, f_res), (p_arg, p_res) = outs
+                        if f_arg[0] != p_arg[0] or f_res[0] != p_res[0] or (f_arg[0] == "ok" and not same(f_arg[1], p_arg[1])) or (f_res[0] == "ok" and not same(f_res[1], p_res[1])):
+                            V("serializer-change-on-connected-proxy-ignored|%s" % plabel, "after switching the connected proxy to %s, %s arrives as %s / returns as %s; a fresh %s proxy gives %s / %s"
+                              % (other, show(pv), show(p_arg), show(p_res), other, show(f_arg), show(f_res)), "switch-to-" + other)
+                finally:
+                    proxy._pyroSerializer = None
+                    fresh._pyroRelease()
         # --- serializer-level pairs on the same values (cheap): loadsCall(dumpsCall()) vs loads(dumps())
         ser = serializers.serializers[sername]
         for label, v, core in vals:
